@@ -1,4 +1,4 @@
-CONSTANTS MaxLive = 3  Configs = {<<8,2>>, <<9,3>>}  Alphabet = "full"
+CONSTANTS MaxLive = 3  Configs = {82, 93}  Alphabet = "full"
 SPECIFICATION ISpec
 INVARIANTS TypeOK InStorage NoOverlap IntactInv DistinctIds NoBadAccess PtrOK PeekOK AllocSound AllocCompleteNonEmpty
 PROPERTIES RefinesPush RefinesPop RefinesReset
